@@ -131,6 +131,16 @@ def dispatch_table(ctx, fi: FuncInfo, subject: str, extra_values=(), allow_atoms
     dd = _dict_dispatch(ctx, fi, subject, sps, extra_values)
     if dd is not None:
         return dd
+    try:
+        return _chain_dispatch(ctx, fi, subject, sps, extra_values, allow_atoms)
+    except AnalysisError as first:
+        try:
+            return dispatch_by_specialisation(ctx, fi, subject, sps, extra_values, allow_atoms)
+        except AnalysisError as second:
+            raise AnalysisError(f'{first}; and by specialisation: {second}')
+
+
+def _chain_dispatch(ctx, fi, subject, sps, extra_values, allow_atoms):
     consts = []
     atom_info = {}
     for sp in sps:
@@ -580,20 +590,27 @@ def list_content(fi: FuncInfo, receiver: str, limit=4000):
     return out
 
 
+RAISES = ('<raises>',)
+
+
 def eval_function(ctx, fi: FuncInfo, env: dict):
     """Interpret a small side-effect-free function on concrete arguments with the checker's own evaluator (no repository code
     runs): the feasible path whose tests hold is followed and its return value evaluated.  -> (True, value) | (False, None)"""
     from .consteval import NotConst
-    for sp in symex.func_sym_paths(fi, 200):
+    for sp in symex.func_sym_paths(fi, 400):
+        if any(e.kind == 'except' for e in sp.events):
+            continue        # exception handlers are not interpreted
         try:
             if not all(bool(ctx.ce.eval(c, fi.module, fi.cls, dict(env))) == t for c, t in sp.conds):
                 continue
             if sp.end == 'fall':
                 return True, None
+            if sp.end == 'raise':
+                return True, RAISES
             if sp.end != 'return':
                 return False, None
             return True, ctx.ce.eval(sp.value, fi.module, fi.cls, dict(env))
-        except (NotConst, AnalysisError, TypeError, KeyError):
+        except (NotConst, AnalysisError, TypeError, KeyError, ValueError, IndexError):
             return False, None
     return False, None
 
@@ -615,3 +632,148 @@ def open_args(call: ast.Call):
         if i < len(names):
             rest[names[i]] = a
     return file, m, rest
+
+
+# ----------------------------------------------------------------------- dispatch by specialisation
+OTHER = '\x00<any other value>'
+
+
+def _key_node(ctx, fi, key):
+    if key is Ellipsis:
+        return ast.Constant(value=OTHER)
+    if isinstance(key, str) and key.count('.') == 1 and key.replace('.', '').replace('_', '').isalnum() and not key.startswith('*'):
+        n = ast.parse(key, mode='eval').body
+        ok, v = ctx.ce.try_eval(n, fi.module, fi.cls, {})
+        if ok and isinstance(v, EnumMember):
+            return n
+    return ast.Constant(value=key)
+
+
+class _Specialise(ast.NodeTransformer):
+    """subject := a constant; look-ups in constant dicts with a constant key are replaced by the entry."""
+
+    def __init__(self, ctx, fi, subject, knode):
+        self.ctx, self.fi, self.subject, self.knode = ctx, fi, subject, knode
+        self.missing = False
+
+    def generic_visit(self, node):
+        if isinstance(node, (ast.Name, ast.Attribute)) and isinstance(getattr(node, 'ctx', None), ast.Load) and ast.unparse(node) == self.subject:
+            return clone(self.knode)
+        return super().generic_visit(node)
+
+    def visit_Name(self, node):
+        return self.generic_visit(node)
+
+    def visit_Attribute(self, node):
+        return self.generic_visit(node)
+
+    def _table(self, expr):
+        d = expr
+        if isinstance(expr, (ast.Name, ast.Attribute)):
+            r = self.ctx.prog.resolve_expr(self.fi.module, expr, self.fi.cls)
+            if not (r and r[0] == 'assign'):
+                return None
+            d = r[1]
+        return d if isinstance(d, ast.Dict) and all(k is not None for k in d.keys) else None
+
+    def _entry(self, table, knode):
+        ok, kv = self.ctx.ce.try_eval(knode, self.fi.module, self.fi.cls, {})
+        if not ok:
+            return None, False
+        for k, v in zip(table.keys, table.values):
+            ok2, k2 = self.ctx.ce.try_eval(k, self.fi.module, self.fi.cls, {})
+            if ok2 and k2 == kv:
+                return clone(v), True
+        return None, True
+
+    def visit_Call(self, node):
+        node = super().generic_visit(node)
+        f = node.func
+        if isinstance(f, ast.Attribute) and f.attr == 'get' and 1 <= len(node.args) <= 2 and not node.keywords:
+            t = self._table(f.value)
+            if t is not None:
+                v, known = self._entry(t, node.args[0])
+                if known:
+                    return v if v is not None else (node.args[1] if len(node.args) == 2 else ast.Constant(value=None))
+        return node
+
+    def visit_Subscript(self, node):
+        node = super().generic_visit(node)
+        if isinstance(node.ctx, ast.Load):
+            t = self._table(node.value)
+            if t is not None:
+                v, known = self._entry(t, node.slice)
+                if known and v is not None:
+                    return v
+                if known:
+                    self.missing = True
+        return node
+
+
+def dispatch_by_specialisation(ctx, fi: FuncInfo, subject: str, sps, extra_values=(), allow_atoms=()):
+    """{constant -> (end, value node, SymPath)}: for every candidate value of the subject the function is specialised (subject
+    replaced by the constant, look-ups in constant tables resolved) and the path whose tests the evaluator decides to hold is
+    the outcome.  Candidates: extra_values, the constants the subject is compared with, the keys of the tables it indexes."""
+    cands = list(extra_values)
+    for sp in sps:
+        for node, _ in sp.conds:
+            for n in ast.walk(node):
+                if isinstance(n, ast.Compare) and len(n.ops) == 1 and isinstance(n.ops[0], (ast.Eq, ast.NotEq)):
+                    for a, b in ((n.left, n.comparators[0]), (n.comparators[0], n.left)):
+                        if ast.unparse(a) == subject:
+                            ok, v = ctx.ce.try_eval(b, fi.module, fi.cls, {})
+                            if ok:
+                                k = f'{v.cls.rpartition(".")[2]}.{v.name}' if isinstance(v, EnumMember) else v
+                                if k not in cands and isinstance(k, (str, int)):
+                                    cands.append(k)
+    table = {}
+    for key in cands + [Ellipsis]:
+        knode = _key_node(ctx, fi, key)
+        taken = []
+        for sp in sps:
+            feasible = True
+            free_ok = True
+            missing = False
+            for node, truth in sp.conds:
+                sp_ = _Specialise(ctx, fi, subject, knode)
+                n2 = sp_.visit(clone(node))
+                missing = missing or sp_.missing
+                ok, v = ctx.ce.try_eval(n2, fi.module, fi.cls, {})
+                if ok:
+                    if bool(v) != truth:
+                        feasible = False
+                        break
+                elif ast.unparse(node) in allow_atoms or any(ast.unparse(node) == a or G.show(G._formula(node)) == a for a in allow_atoms):
+                    continue
+                else:
+                    d = symex._decide(n2)
+                    if d is not None:
+                        if d != truth:
+                            feasible = False
+                            break
+                        continue
+                    free_ok = False
+                    why = ast.unparse(n2)
+                    break
+            if not feasible:
+                continue
+            if not free_ok:
+                raise AnalysisError(f'{fi.loc} {fi.qualname}: for {subject} == {key!r} the test `{why[:80]}` cannot be decided')
+            taken.append((sp, missing))
+
+        def _shape(sp_):
+            v_ = sp_.value
+            return (sp_.end, ast.unparse(v_.func) if isinstance(v_, ast.Call) else (ast.unparse(v_) if v_ is not None else None))
+        if not taken:
+            raise AnalysisError(f'{fi.loc} {fi.qualname}: no path for {subject} == {key!r}')
+        if any(_shape(t[0]) != _shape(taken[0][0]) for t in taken):
+            raise AnalysisError(f'{fi.loc} {fi.qualname}: {len(taken)} different outcomes for {subject} == {key!r}')
+        sp, missing = taken[0]
+        if sp.value is not None:
+            spc = _Specialise(ctx, fi, subject, knode)
+            val = spc.visit(clone(sp.value))
+            missing = missing or spc.missing
+        else:
+            val = None
+        table[key] = ('raise', None, sp) if missing and sp.end == 'return' else (sp.end, val, sp)
+    return table
